@@ -225,7 +225,9 @@ pub struct CompilerState<'a> {
 impl<'a> CompilerState<'a> {
     pub fn sorted_variables(&self) -> Vec<(&String, &Variable)> {
         let mut v: Vec<(&String, &Variable)> = self.variables.iter().collect();
-        v.sort_by(|a, b| a.1.order.cmp(&b.1.order));
+        // Two entries can share an order (an entry that is inserted again keeps the table's
+        // length unchanged): the name decides, never the hash map's iteration order
+        v.sort_by(|a, b| a.1.order.cmp(&b.1.order).then_with(|| a.0.cmp(b.0)));
         v
     }
 
@@ -235,7 +237,7 @@ impl<'a> CompilerState<'a> {
 
     pub fn sorted_functions(&self) -> Vec<(&String, &Function<'a>)> {
         let mut v: Vec<(&String, &Function)> = self.functions.iter().collect();
-        v.sort_by(|a, b| a.1.order.cmp(&b.1.order));
+        v.sort_by(|a, b| a.1.order.cmp(&b.1.order).then_with(|| a.0.cmp(b.0)));
         v
     }
 
